@@ -136,6 +136,27 @@ fn can_hint_missing_address(
 			}
 			_ => argument_type.can_coerce_address_into(parameter_type),
 		},
+		// A slice pointer that is passed without its `&` arrives here as
+		// the slice that it points to.
+		Expression::Autocoerce {
+			expression,
+			coerced_type: ValueType::Slice { element_type: a },
+		} => match (expression.as_ref(), parameter_type)
+		{
+			(
+				Expression::Deref { .. },
+				ValueType::SlicePointer { element_type: b },
+			) => a == b,
+			(
+				Expression::Deref { .. },
+				ValueType::Pointer { deref_type },
+			) => match deref_type.as_ref()
+			{
+				ValueType::EndlessArray { element_type: b } => a == b,
+				_ => false,
+			},
+			_ => false,
+		},
 		_ => false,
 	}
 }
@@ -766,7 +787,8 @@ fn analyze_builtin(
 	}
 }
 
-/// A call to a function without a return value has nothing to format.
+/// A call to a function without a return value has nothing to format,
+/// and there is no format for a view or for a slice pointer as such.
 fn reject_void_arguments(
 	name: &Identifier,
 	arguments: &[Expression],
@@ -776,7 +798,14 @@ fn reject_void_arguments(
 	{
 		match argument.value_type()
 		{
-			Some(Ok(value_type)) if value_type.is_void() =>
+			Some(Ok(value_type))
+				if value_type.is_void()
+					|| matches!(
+						value_type,
+						ValueType::View { .. }
+							| ValueType::SlicePointer { .. }
+							| ValueType::Arraylike { .. }
+					) =>
 			{
 				return Err(Error::InvalidOperandType {
 					value_type,
